@@ -255,7 +255,39 @@ func checkDict(c *explore.Ctx, scope string, idx *int64, seg segment.Segment, wa
 		probe = append(probe, t)
 	}
 	sort.Strings(probe)
+	var pre segment.PostingsList // one list reused as prealloc across all probes (hits and misses alternate)
 	for _, t := range probe {
+		// the same lookup through the reused list must agree with the set as well
+		{
+			var cnt uint64
+			var n int
+			msg := explore.Guard(func() {
+				var pl segment.PostingsList
+				pl, err = dict.PostingsList([]byte(t), nil, pre)
+				if err != nil {
+					return
+				}
+				pre = pl
+				cnt = pl.Count()
+				var it segment.PostingsIterator
+				it, err = pl.Iterator(false, false, false, nil)
+				if err != nil {
+					return
+				}
+				for {
+					var p segment.Posting
+					p, err = it.Next()
+					if err != nil || p == nil {
+						return
+					}
+					n++
+				}
+			})
+			if msg != "" || err != nil || cnt != wantCount[t] || n != int(wantCount[t]) {
+				c.Violate(scope, my, "C08/probe/wrong/postingslist-reused", fmt.Sprintf("PostingsList(%q) through a reused list: count %d, %d postings, want %d (%s)", t, cnt, n, wantCount[t], errText(msg, err)), fmt.Sprintf("%s field=%q", cas, field))
+				return
+			}
+		}
 		_, has := wantCount[t]
 		var contains bool
 		var plc uint64
